@@ -85,7 +85,10 @@ def get_yaml_default_loader():
 def yaml_load(stream):
     import yaml
 
-    value = yaml.load(stream, Loader=get_yaml_default_loader())
+    try:
+        value = yaml.load(stream, Loader=get_yaml_default_loader())
+    except ValueError as ex:  # scalar constructors, e.g. int("9"*5000), float(".")
+        raise yaml.YAMLError(str(ex)) from ex
     if isinstance(value, dict) and value and all(v is None for v in value.values()):
         if len(value) == 1 and stream.strip() == next(iter(value.keys())) + ":":
             value = stream
